@@ -183,6 +183,13 @@ fn candidates(family: Family, ast: &Ast, f: &Frame, thin: bool) -> Vec<(&'static
         let mut g = f.clone();
         g.rl_raw = Some(vec![0x80, 0x80, 0x80, 0x80, 0x00]);
         out.push(("remaining-length-5-bytes", "header".into(), g, Viol::VarIntTooLong));
+        // the input ends right after the fourth continuation byte: already over-long
+        for raw in [vec![0x80u8, 0x80, 0x80, 0x80], vec![0xFF, 0xFF, 0xFF, 0xFF]] {
+            let mut g = f.clone();
+            g.rl_raw = Some(raw);
+            g.body = Node::Seq(vec![]);
+            out.push(("remaining-length-5-bytes", "header, input ends after the 4th continuation byte".into(), g, Viol::VarIntTooLong));
+        }
     }
 
     // --- body sites ---------------------------------------------------------------
